@@ -1,3 +1,222 @@
+//! Part 2 (route H tie of `BondGraphC17`): the REAL `HelmholtzEnergyFunctional::bond_integrals` on molecule graphs that are
+//! fed through the real gc-PC-SAFT parameter path (`ChemicalRecord` -> `GcPcSaftFunctionalParameters::from_segments`),
+//! observed through a recording `Convolver`: every `convolve` call returns a profile filled with a fresh prime, the
+//! "exponential" of segment s is another prime, so the argument of every call factors uniquely into (target segment,
+//! messages used) and the final product per segment tells the source of every message.
+use feos::gc_pcsaft::{GcPcSaftFunctional, GcPcSaftFunctionalParameters, GcPcSaftRecord};
+use feos_core::parameter::{ChemicalRecord, Identifier, ParameterHetero, SegmentRecord};
+use feos_dft::{Convolver, HelmholtzEnergyFunctional, WeightFunction};
 use feos_verif::cli::Cli;
+use feos_verif::configs::{params, Rng};
+use ndarray::{Array1, Array2, Ix1};
 use serde_json::{json, Value};
-pub fn run(_cli: &Cli) -> Value { json!({}) }
+use std::sync::{Arc, Mutex};
+
+fn primes(k: usize) -> Vec<u64> {
+    let mut v = Vec::new();
+    let mut c = 2u64;
+    while v.len() < k {
+        if v.iter().all(|p| c % p != 0) {
+            v.push(c);
+        }
+        c += 1;
+    }
+    v
+}
+
+struct Recorder {
+    nseg: usize,
+    primes: Vec<u64>,
+    /// (argument value, returned prime) per call
+    log: Mutex<Vec<(f64, u64)>>,
+}
+
+impl Convolver<f64, Ix1> for Recorder {
+    fn convolve(&self, profile: Array1<f64>, _wf: &WeightFunction<f64>) -> Array1<f64> {
+        let mut log = self.log.lock().unwrap();
+        let q = self.primes[self.nseg + log.len()];
+        log.push((profile[0], q));
+        Array1::from_elem(profile.len(), q as f64)
+    }
+    fn weighted_densities(&self, _: &Array2<f64>) -> Vec<Array2<f64>> {
+        unreachable!()
+    }
+    fn functional_derivative(&self, _: &[Array2<f64>]) -> Array2<f64> {
+        unreachable!()
+    }
+}
+
+/// one molecule per entry: (number of segments, bonds)
+pub struct Case {
+    pub name: String,
+    pub molecules: Vec<(usize, Vec<[usize; 2]>)>,
+}
+
+impl Case {
+    /// global numbering as `from_segments` builds it
+    fn flat(&self) -> (usize, Vec<(usize, usize)>) {
+        let mut off = 0;
+        let mut bs = Vec::new();
+        for (n, b) in &self.molecules {
+            for x in b {
+                bs.push((off + x[0], off + x[1]));
+            }
+            off += n;
+        }
+        (off, bs)
+    }
+}
+
+fn random_molecule(rng: &mut Rng, n: usize, cyc: bool) -> (usize, Vec<[usize; 2]>) {
+    // random labelled tree: random attachment + random relabelling + random orientation + shuffled bond order
+    let mut perm: Vec<usize> = (0..n).collect();
+    for i in (1..n).rev() {
+        perm.swap(i, rng.below(i + 1));
+    }
+    let mut b: Vec<[usize; 2]> = Vec::new();
+    for i in 1..n {
+        let p = rng.below(i);
+        b.push(if rng.f64() < 0.5 { [perm[p], perm[i]] } else { [perm[i], perm[p]] });
+    }
+    if cyc && n >= 3 {
+        // one extra bond between two non-adjacent segments closes a ring
+        for _ in 0..20 {
+            let (a, c) = (rng.below(n), rng.below(n));
+            if a != c && !b.iter().any(|x| (x[0] == a && x[1] == c) || (x[0] == c && x[1] == a)) {
+                b.push([a, c]);
+                break;
+            }
+        }
+    }
+    for i in (1..b.len()).rev() {
+        b.swap(i, rng.below(i + 1));
+    }
+    (n, b)
+}
+
+fn observe(case: &Case, segs: &[SegmentRecord<GcPcSaftRecord>]) -> Value {
+    let seg_names = ["CH3", "CH2", ">CH", ">C<"];
+    let crs: Vec<ChemicalRecord> = case
+        .molecules
+        .iter()
+        .enumerate()
+        .map(|(mi, (n, b))| {
+            ChemicalRecord::new(
+                Identifier::new(None, Some(&format!("mol{mi}")), None, None, None, None),
+                (0..*n).map(|i| seg_names[i % 4].to_string()).collect(),
+                Some(b.clone()),
+            )
+        })
+        .collect();
+    let p = match GcPcSaftFunctionalParameters::from_segments(crs, segs.to_vec(), None) {
+        Ok(p) => p,
+        Err(e) => return json!({"error": format!("{e}")}),
+    };
+    let f = GcPcSaftFunctional::new(Arc::new(p));
+    let nseg = f.component_index().len();
+    let pr = primes(3 * nseg + 4 * nseg);
+    let rec = Arc::new(Recorder { nseg, primes: pr.clone(), log: Mutex::new(Vec::new()) });
+    let conv: Arc<dyn Convolver<f64, Ix1>> = rec.clone();
+    let expo = Array2::from_shape_fn((nseg, 1), |(s, _)| pr[s] as f64);
+    let prev = std::panic::take_hook();
+    std::panic::set_hook(Box::new(|_| {}));
+    let r = std::panic::catch_unwind(std::panic::AssertUnwindSafe(|| f.bond_integrals(300.0, &expo, &conv)));
+    std::panic::set_hook(prev);
+    let log = rec.log.lock().unwrap().clone();
+    let factor = |mut x: u64, ps: &[u64]| -> Vec<usize> {
+        let mut out = Vec::new();
+        for (i, p) in ps.iter().enumerate() {
+            while x % p == 0 {
+                x /= p;
+                out.push(i);
+            }
+        }
+        assert!(x == 1, "unexpected factor");
+        out
+    };
+    match r {
+        Err(e) => {
+            let msg = e.downcast_ref::<&str>().map(|s| s.to_string()).or_else(|| e.downcast_ref::<String>().cloned()).unwrap_or_default();
+            json!({"panic": msg, "calls_before_panic": log.len()})
+        }
+        Ok(i) => {
+            // source of every call from the final products
+            let ncalls = log.len();
+            let mut src = vec![usize::MAX; ncalls];
+            for s in 0..nseg {
+                for c in factor(i[[s, 0]] as u64, &pr[nseg..nseg + ncalls]) {
+                    src[c] = s;
+                }
+            }
+            let mut tgt = vec![usize::MAX; ncalls];
+            let mut used: Vec<Vec<usize>> = vec![Vec::new(); ncalls];
+            for (c, (arg, _)) in log.iter().enumerate() {
+                for k in factor(*arg as u64, &pr[..nseg + ncalls]) {
+                    if k < nseg {
+                        tgt[c] = k;
+                    } else {
+                        used[c].push(k - nseg);
+                    }
+                }
+            }
+            let order: Vec<Value> = (0..ncalls)
+                .map(|c| {
+                    let mut d: Vec<(usize, usize)> = used[c].iter().map(|u| (src[*u], tgt[*u])).collect();
+                    d.sort();
+                    json!([[src[c], tgt[c]], d])
+                })
+                .collect();
+            json!({"order": order})
+        }
+    }
+}
+
+pub fn run(cli: &Cli) -> Value {
+    let mut rng = Rng(cli.seed ^ 0xB0_C17);
+    let segs: Vec<SegmentRecord<GcPcSaftRecord>> =
+        SegmentRecord::from_json(format!("{}/pcsaft/sauer2014_hetero.json", params())).unwrap();
+    let mut cases = vec![
+        Case { name: "propane".into(), molecules: vec![(3, vec![[0, 1], [1, 2]])] },
+        Case { name: "isobutane".into(), molecules: vec![(4, vec![[0, 1], [0, 2], [0, 3]])] },
+        Case { name: "neopentane".into(), molecules: vec![(5, vec![[1, 0], [2, 0], [0, 3], [0, 4]])] },
+        Case { name: "cyclopropane".into(), molecules: vec![(3, vec![[0, 1], [1, 2], [2, 0]])] },
+        Case { name: "ring_with_tail".into(), molecules: vec![(4, vec![[0, 1], [1, 2], [2, 0], [2, 3]])] },
+        Case { name: "mixture_propane_isobutane".into(), molecules: vec![(3, vec![[0, 1], [1, 2]]), (4, vec![[1, 0], [1, 2], [3, 1]])] },
+        Case { name: "ethane".into(), molecules: vec![(2, vec![[1, 0]])] },
+    ];
+    let nrand = if cli.full() { 60 } else { 16 };
+    for k in 0..nrand {
+        let nmol = if rng.f64() < 0.25 { 2 } else { 1 };
+        let mut molecules = Vec::new();
+        for _ in 0..nmol {
+            let n = 2 + rng.below(6);
+            let cyc = rng.f64() < 0.25;
+            molecules.push(random_molecule(&mut rng, n, cyc));
+        }
+        cases.push(Case { name: format!("random{k}"), molecules });
+    }
+    let mut v = String::from(
+        "(* generated by harness/src/bin/c17/bonds.rs on every run - do not edit *)\nFrom Coq Require Import List Arith String.\nFrom FeosVerif Require Import BondGraphC17.\nFrom FeosProps Require Import C17.\nImport ListNotations.\nSet Printing Width 1000000.\nSet Printing Depth 1000000.\nOpen Scope string_scope.\n",
+    );
+    let mut out = Vec::new();
+    for (k, c) in cases.iter().enumerate() {
+        let (n, bs) = c.flat();
+        let obs = observe(c, &segs);
+        let bl: Vec<String> = bs.iter().map(|(a, b)| format!("({a}, {b})")).collect();
+        v.push_str(&format!("Definition g{k}_bonds : list (nat * nat) := [{}].\n", bl.join("; ")));
+        v.push_str(&format!("Eval vm_compute in (\"BOND\", {k}, run_described {n} g{k}_bonds).\n"));
+        v.push_str(&format!("Eval vm_compute in (\"NSTUCK\", {k}, List.length (stuck_set {n} g{k}_bonds)).\n"));
+        if obs.get("order").is_some() {
+            v.push_str(&format!(
+                "Lemma g{k}_terminates : exists res, run_graph {n} g{k}_bonds = Some res.\nProof. apply C17_bond_tree_terminates; vm_compute; reflexivity. Qed.\n"
+            ));
+        } else if obs.get("panic").is_some() {
+            v.push_str(&format!(
+                "Lemma g{k}_panics : run_graph {n} g{k}_bonds = None.\nProof. apply (C17_bond_cycle_panics _ _ (hd 0 (stuck_set {n} g{k}_bonds))); vm_compute; [reflexivity | tauto]. Qed.\n"
+            ));
+        }
+        out.push(json!({"index": k, "name": c.name, "segments": n, "bonds": bs, "observed": obs}));
+    }
+    std::fs::write(format!("{}/bonds.v", cli.out), v).unwrap();
+    json!({"cases": out})
+}
